@@ -1,3 +1,53 @@
+import Mhd.Model.ConnMem
 import Driver.Common
-/- stub: replaced by the builder of this engine -/
-def main : IO Unit := Driver.runEngine () (fun s _ => (s, ["bad-op"]))
+open Mhd.ConnMem Mhd.Pool Driver
+
+def optS : Option Nat → String
+  | none => "null"
+  | some o => toString o
+
+def showCM (c : CM) : String :=
+  s!"rb={optS c.rb} rbs={c.rbSize} rbo={c.rbOff} wb={optS c.wb} wbs={c.wbSize} wba={c.wbApp} wbn={c.wbSend} pos={c.p.pos} end={c.p.end_}"
+
+def showRes (c : CM) : Res → String
+  | .ok => s!"ok {showCM c}"
+  | .bool b => s!"ret={b} {showCM c}"
+  | .ptr o => s!"ptr={optS o} {showCM c}"
+  | .size n => s!"n={n} {showCM c}"
+  | .badOp => "bad-op"
+
+def doOp (c : CM) (o : Op) : CM × List String :=
+  let (c', r) := step c o
+  (c', [showRes c' r])
+
+def nat1 (c : CM) (s : String) (f : Nat → Op) : CM × List String :=
+  match s.toNat? with
+  | some k => if k < 2 ^ 64 then doOp c (f k) else (c, ["bad-op"])
+  | none => (c, ["bad-op"])
+
+def stepLine (c : CM) (ws : List String) : CM × List String :=
+  match ws with
+  | ["init", ps, inc] => match ps.toNat?, inc.toNat? with
+      | some p, some i =>
+        if 64 ≤ p ∧ p < 2 ^ 40 ∧ i < 2 ^ 40 then
+          let c0 := init (createSize p) p i
+          (c0, [s!"ok {showCM c0} size={c0.p.size}"])
+        else (c, ["bad-op"])
+      | _, _ => (c, ["bad-op"])
+  | ["grow", r] => match r.toNat? with
+      | some k => doOp c (.grow (k != 0))
+      | none => (c, ["bad-op"])
+  | ["recv", k] => nat1 c k .recv
+  | ["consume", k] => nat1 c k .consume
+  | ["shiftback", k] => nat1 c k .shiftBack
+  | ["alloc", k] => nat1 c k .alloc
+  | ["shrinkread"] => doOp c .shrinkRead
+  | ["maxwrite"] => doOp c .maxWrite
+  | ["wappend", k] => nat1 c k .wAppend
+  | ["wsend", k] => nat1 c k .wSend
+  | ["reset"] => doOp c .resetConn
+  | ["errrelease"] => doOp c .errRelease
+  | ["errreset"] => doOp c .errReset
+  | _ => (c, ["bad-op"])
+
+def main : IO Unit := runEngine (init 64 64 16) stepLine
